@@ -17,27 +17,26 @@ open Pandora Pandora.Config Pandora.ConfigSpec
 
 /-- the requirements on one dataset, by sub-identifier -/
 def datasetClauses (isLeft : Bool) (d : DsDesc) : List (String × Bool) :=
-  let im := d.shapeOf "im"
-  let hasDisp := (d.shapeOf "disparity").isSome
-  [ ("has_im", im.isSome),
-    ("not_all_nan", !d.imAllNan),
-    ("band_names_str", match d.bandIm with | none => true | some bs => bs.all id),
-    ("same_grid", match im with
-                  | none => false
-                  | some s => d.vars.all (fun v => v.1 == "im" || lastTwo v.2 == lastTwo s)),
-    ("attrs", mandatoryAttrs.all (fun a => d.attrs.contains a)),
-    ("left_disparity", !isLeft || hasDisp),
-    ("disp_bands", !hasDisp || (match d.bandDisp with
-                                | none => false
-                                | some bs => bs.contains "min" && bs.contains "max")),
-    ("min_le_max", !hasDisp || !d.dispMinGtMax) ]
+  let f := d.features
+  [ ("has_im", f.hasIm),
+    ("not_all_nan", !f.allNan),
+    ("band_names_str", f.bandNamesStr),
+    ("same_grid", f.sameGrid),
+    ("attrs", f.attrs),
+    ("left_disparity", !isLeft || f.hasDisp),
+    ("disp_bands", !f.hasDisp || f.dispBands),
+    ("min_le_max", !f.hasDisp || !f.minGtMax) ]
+
+/-- both images have the same number of rows and columns -/
+def sameSize (l r : DsDesc) : Bool :=
+  match l.shapeOf "im", r.shapeOf "im" with
+  | some a, some b => lastTwo a == lastTwo b
+  | _, _ => false
 
 def pairClauses (l r : DsDesc) : List (String × Bool) :=
   (datasetClauses true l).map (fun c => ("left." ++ c.1, c.2)) ++
   (datasetClauses false r).map (fun c => ("right." ++ c.1, c.2)) ++
-  [("same_size", match l.shapeOf "im", r.shapeOf "im" with
-                 | some a, some b => lastTwo a == lastTwo b
-                 | _, _ => false)]
+  [("same_size", sameSize l r)]
 
 /-- a left/right pair is well-formed -/
 def datasetsWellFormed (l r : DsDesc) : Bool := (pairClauses l r).all (·.2)
